@@ -481,8 +481,12 @@ func (s *schemaBuilder) buildFromType(tpe types.Type, tgt swaggerTypable) error 
 
 			return nil
 		}
+	case *types.TypeParam:
+		// the declaration of a generic type: what the type parameter stands for is only known
+		// where the type is instantiated, so it is described as any value
+		return nil
 	default:
-		panic(fmt.Sprintf("WARNING: can't determine refined type %s (%T)", titpe.String(), titpe))
+		return fmt.Errorf("can't determine refined type %s (%T)", titpe.String(), titpe)
 	}
 
 	return nil
